@@ -707,7 +707,7 @@ def cli_run(tier, seed):
 # ------------------------------------------------------------------------------------------
 # C09: Regex.tla
 
-SYM_BYTES = {"a": b"a", "b": b"b", "e": "é".encode(), "h": b"\xe2\x82", "f": b"\xff", "o": b"o"}
+SYM_BYTES = {"a": b"a", "b": b"b", "e": "é".encode(), "h": b"\xe2\x82", "f": b"\xff", "o": b"o", "x": b"(?-u:\\xff)"}
 DOT_TEXT = {"nl": b".", "s": b"(?s:.)", "cls": b"[^\\n]"}
 
 
@@ -812,6 +812,27 @@ def prio_run(tier, seed):
         text = render_ast_bytes(a["r"])
         defs.append(corpus.mk("bast%d" % k, [corpus.rx(list(text), greedy=True)], utf8=False))
         expect.append((a["prio"], 0, text.decode("latin-1"), "regex-bytes", a["r"]))
+    # str-literal patterns of a utf8 = false lexer with raw bytes written (?-u:\xff) between the characters (MODE = mixed):
+    # a character or such a byte counts once, with and without ignore(case)
+    resm = run_tlc("Regex.tla", "Regex.cfg", {"DEPTH": str(depth), "MODE": "mixed"}, workers=8, metaname="regexm")
+    if not resm["ok"]:
+        raise ToolError("Regex.tla (mixed): LiteralNotBeaten violated at specification level:\n" + resm["out"][-3000:])
+    masts = [r[2] for r in tlc_records(resm) if r[0] == "AST"]
+    n_masts = len(masts)
+    if tier == "quick" and len(masts) > 1200:
+        small = [a for a in masts if len(json.dumps(a["r"])) < 60]
+        rest = [a for a in masts if a not in small]
+        masts = small + rng.sample(rest, 1200 - min(1200, len(small)))
+    for k, a in enumerate(masts):
+        text = render_ast_bytes(a["r"]).decode()
+        for variant in ("regex-mixed", "icase-mixed"):
+            if variant == "icase-mixed" and k % 3 != 0:
+                continue
+            kw = {"greedy": True}
+            if variant == "icase-mixed":
+                kw["icase"] = True
+            defs.append(corpus.mk("mast%d_%s" % (k, variant[:5]), [corpus.rx(text, **kw)], utf8=False))
+            expect.append((a["prio"], 0, text, variant, a["r"]))
     # literal tokens: 2 x byte length, explicit priority overrides
     lits = ["a", "ab", "é", "éa", "a.b", "€", "😀x", "+", "abc"]
     for k, w in enumerate(lits):
@@ -841,7 +862,7 @@ def prio_run(tier, seed):
         else:
             n_ok += 1
     samples = [{"pattern": e[2], "kind": e[3], "expected_priority": e[0]} for e in expect[:: max(1, len(expect) // 6)][:6]]
-    return {"tlc": {k: res[k] + resb[k] for k in ("states", "distinct", "wall")}, "asts": len(asts), "asts_bytes": len(basts), "asts_bytes_enumerated": n_basts,
+    return {"tlc": {k: res[k] + resb[k] + resm[k] for k in ("states", "distinct", "wall")}, "asts": len(asts), "asts_bytes": len(basts), "asts_bytes_enumerated": n_basts, "asts_mixed": len(masts), "asts_mixed_enumerated": n_masts,
             "cases": len(expect), "agree": n_ok, "findings": findings, "samples": samples, "wall": time.time() - t0}
 
 
